@@ -246,6 +246,7 @@ pub fn gen_session(rng: &mut Rng, name: &str, opts: &CfgOpts, seed_salt: u64) ->
             rng_seed: mix(rng.next_u64(), seed_salt),
             deny: None,
             evil_static_pub: false,
+            build_order: rng.below(128) as u8,
         }
     };
     let mut a = mk(true, rng);
